@@ -221,6 +221,21 @@ class Gen:
         for h in w.alive(['B', 'A', 'T', 'M', 'O']):
             if secs and r.random() < 0.2: w.emit('single metadata %s handle %s' % (h.slot, r.choice(secs).slot))
 
+    def delete_some(self):
+        """delete entities through the API: holders lose their links (a multi-tag whose positions array goes is then in breach)"""
+        r, w = self.rng, self.w
+        for _ in range(r.randint(1, 2)):
+            c = [e for e in w.alive(['A', 'T', 'M', 'O', 'S'])]
+            if not c: return
+            e = r.choice(c)
+            w.delete(e, r.choice(['name', 'handle']))
+            for f in self.feats:
+                if f.alive and not any(x.slot == f.parent and x.alive for x in w.ents): f.alive = False
+            for p in self.props:
+                if p.alive and not any(x.slot == p.parent and x.alive for x in w.ents): p.alive = False
+        for t in self.tags:
+            t.refs = [a for a in t.refs if a.ent.alive]
+
     def check(self):
         self.w.emit('vl_desc')
         self.w.emit('vl_validate')
@@ -369,6 +384,9 @@ def history(rng, tier):
     if rng.random() < 0.05:
         g.w.emit('vl_validate_doc')
     origin = ['conforming']
+    if rng.random() < 0.2:
+        g.delete_some(); origin.append('delete')
+        g.check()
     if rng.random() < 0.45:
         for _ in range(rng.randint(1, 3)):
             s = g.soft()
